@@ -254,7 +254,17 @@ func TestC05(t *testing.T) {
 		g := rng(r, "l1sync", i)
 		c05L1Sync(r, caseID, g)
 	})
-	finish(t, r, r.N(40, 80), "static/*", "dyn/*", "l1sync/*")
+	// with a fork of already delivered, non-finalized blocks (plane shared with C06): the events of
+	// the final chain must end up delivered exactly once, in order, none of the dropped fork left
+	nFork := r.N(8, 80)
+	parallel(nFork, workers, func(i int) {
+		caseID := fmt.Sprintf("fork/%d", i)
+		if !r.Only(caseID) {
+			return
+		}
+		c06Rewind(r, caseID, rng(r, "c05fork", i), true)
+	})
+	finish(t, r, r.N(40, 80), "static/*", "dyn/*", "l1sync/*", "rewind/replace*")
 }
 
 type c05Dyn struct {
